@@ -82,10 +82,11 @@ class Engine(Executor):
                 out.append((s2, x))
                 continue
             rid = V.get_rid(t)
+            cid = s2.sid(rid)
             n = z3.If(V.is_Str(t), z3.Length(V.get_s(t)),
-                      z3.If(V.kind_of(rid) == V.K_DICT, V.map_len(rid), V.seq_len(rid)))
-            s2.assume(V.seq_len(rid) >= 0)
-            s2.assume(V.map_len(rid) >= 0)
+                      z3.If(V.kind_of(rid) == V.K_DICT, V.map_len(cid), V.seq_len(cid)))
+            s2.assume(V.seq_len(cid) >= 0)
+            s2.assume(V.map_len(cid) >= 0)
             out.append((s2, Z(V.VInt(n), "int")))
         return out
 
@@ -429,7 +430,7 @@ class Engine(Executor):
         t = recv.t
         out = []
         str_methods = {"startswith", "endswith", "lower", "upper", "title", "strip", "lstrip", "rstrip", "count",
-                       "index", "find", "format", "join", "replace", "split", "isdigit", "isnumeric"}
+                       "index", "find", "format", "join", "replace", "split", "isdigit", "isnumeric", "isdecimal"}
         if meth not in str_methods:
             return self.object_method(recv, meth, args, kwargs, s, node)
         for (s2, x) in self.str_need(recv, s, node, meth):
@@ -531,6 +532,17 @@ class Engine(Executor):
                             parts = V.fresh("split", V.SeqStr)
                             s3.assume(z3.Length(parts) >= 1)
                             out.append((s3, s3.alloc(SeqBox(parts, "str", "list"))))
+            elif meth in ("isdigit", "isnumeric", "isdecimal") and not args:
+                # Unicode character classes are not modelled: the predicate is uninterpreted, with the two facts that
+                # hold in CPython -- a non-empty run of ASCII digits satisfies it, the empty string does not.  In
+                # particular it does NOT entail int_ok (int('\u00b2') raises although '\u00b2'.isdigit() is True).
+                fn = z3.Function("str_" + meth, V.S, V.B)
+                r = fn(sv)
+                s2.assume(z3.Implies(r, z3.Length(sv) > 0))
+                s2.assume(z3.Implies(z3.InRe(sv, z3.Plus(z3.Range("0", "9"))), r))
+                s2.assume(z3.Implies(z3.InRe(sv, z3.Plus(z3.Range("0", "9"))), V.int_ok(sv)))
+                self.assumptions.add("str.%s(): uninterpreted predicate (ASCII digit runs satisfy it, '' does not; no link to int())" % meth)
+                out.append((s2, Z(V.VBool(r), "bool")))
             else:
                 raise Unsupported("str.%s" % meth, node)
         return out
@@ -540,6 +552,8 @@ class Engine(Executor):
         owners = [c for c in self.classes_with_attr(meth) if self.P.find_class(c) is not None and meth in self.P.find_class(c).methods]
         if isinstance(recv.hint, tuple) and recv.hint[0] == "obj" and recv.hint[1] in owners:
             owners = [recv.hint[1]]
+        if not owners and meth in ("append", "add") and len(args) == 1 and not kwargs:
+            return self.heap_container_method(recv, meth, args[0], s, node)
         if len(owners) != 1:
             raise Unsupported("method .%s on a value of unknown class (candidates: %s)" % (meth, owners), node)
         ci = self.P.find_class(owners[0])
@@ -550,6 +564,67 @@ class Engine(Executor):
                 out.append((s2, x))
             else:
                 out.extend(self.call_function(fi, [recv] + list(args), kwargs, s2, node))
+        return out
+
+    def heap_container_method(self, recv, meth, arg, s, node):
+        """list.append(x) / set.add(x) on a pre-existing heap container: the object moves to a new content state."""
+        t = recv.t
+        rid = V.get_rid(t)
+        kinds = ("list", "deque") if meth == "append" else ("set", "CommentedSet")
+        ok = z3.And(V.is_Ref(t), z3.Or([V.kind_of(rid) == V.kind_id(k) for k in kinds]))
+        out = []
+        for (s2, x) in self.need(s, ok, "AttributeError", node, "receiver of .%s() is a %s" % (meth, kinds[0])):
+            if x is not None:
+                out.append((s2, x))
+                continue
+            zv = self.to_z(arg, s2, node)
+            old, new = s2.heap_write(rid, meth)
+            if meth == "append":
+                s2.assume(V.seq_len(old) >= 0)
+                s2.assume(V.seq_len(new) == V.seq_len(old) + 1)
+                s2.assume(V.seq_item(new, V.seq_len(old)) == zv.t)
+                self.assumptions.add("heap list.append: length and the appended element are exact; the frame of the other "
+                                     "elements is not carried (they read as unconstrained afterwards: an over-approximation)")
+            out.append((s2, Z(V.VNone)))
+        return out
+
+    def store_subscript(self, tgt, v, st, stmt):
+        """data[k] = v on a pre-existing heap list / dict."""
+        out = []
+        for (s, vals) in self.ev_list([tgt.value, tgt.slice], st):
+            if is_exc(vals):
+                out.append((s, ("raise", vals)))
+                continue
+            base, idx = vals
+            if not isinstance(base, Z) or not isinstance(idx, Z):
+                raise Unsupported("subscript store on %s" % type(base).__name__, stmt)
+            t, i = base.t, idx.t
+            rid = V.get_rid(t)
+            is_seq = z3.And(V.is_Ref(t), V.kind_of(rid) == V.K_LIST)
+            is_map = z3.And(V.is_Ref(t), V.kind_of(rid) == V.K_DICT)
+            for (s2, x) in self.need(s, z3.Or(is_seq, is_map), "TypeError", stmt, "item assignment on a list or dict"):
+                if x is not None:
+                    out.append((s2, ("raise", x)))
+                    continue
+                for (s3, y) in self.need(s2, z3.Implies(is_seq, V.is_intlike(i)), "TypeError", stmt, "list index is an int"):
+                    if y is not None:
+                        out.append((s3, ("raise", y)))
+                        continue
+                    n = V.seq_len(s3.sid(rid))
+                    ii = V.to_int(i)
+                    for (s4, w) in self.need(s3, z3.Implies(is_seq, z3.And(ii >= -n, ii < n)), "IndexError", stmt, "list assignment index in range"):
+                        if w is not None:
+                            out.append((s4, ("raise", w)))
+                            continue
+                        zv = self.to_z(v, s4, stmt)
+                        old, new = s4.heap_write(rid, "store")
+                        s4.assume(V.seq_len(new) == V.seq_len(old))
+                        s4.assume(z3.Implies(is_seq, V.seq_item(new, self.norm_index(ii, V.seq_len(old))) == zv.t))
+                        s4.assume(z3.Implies(is_map, z3.And(V.map_has(new, i), V.map_get(new, i) == zv.t,
+                                                            V.map_len(new) >= V.map_len(old), V.map_len(new) >= 1)))
+                        self.assumptions.add("heap item assignment: the written slot is exact, dict keys are taken to be hashable, "
+                                             "the other slots read as unconstrained afterwards (over-approximation)")
+                        out.append(s4)
         return out
 
     def str_join(self, sep, a, s, node):
@@ -744,6 +819,28 @@ class Engine(Executor):
             self.cur_fi = saved_fi
             st.env = saved_env
 
+    def eval_clause_value(self, src, st, env, node=None):
+        """Evaluate a contract expression to its (single) value in `st` without changing it (ghost definitions)."""
+        tree = ast.parse(src, mode="eval").body
+        for n in ast.walk(tree):
+            if not hasattr(n, "lineno"):
+                n.lineno = getattr(node, "lineno", 0)
+        saved_env, saved_fi = st.env, self.cur_fi
+        self.cur_fi = self.contract_fi
+        self.pure += 1
+        self.in_spec += 1
+        try:
+            st.env = dict(env)
+            r = self.ev(tree, st)
+        finally:
+            self.pure -= 1
+            self.in_spec -= 1
+            self.cur_fi = saved_fi
+            st.env = saved_env
+        if len(r) != 1 or is_exc(r[0][1]):
+            raise Unsupported("ghost expression %r" % src, node)
+        return r[0][1]
+
     def check_call_pre(self, c, fi, args, kwargs, s, node):
         self.apply_contract(c, fi, args, kwargs, s, node, pre_only=True)
 
@@ -848,7 +945,12 @@ class Engine(Executor):
             env2[gname] = r[0][1]
         # frame: objects the callee may modify are havoced in the caller's view
         for pname in (c.modifies or []):
+            if pname == "*":
+                s.heap_havoc("call_" + fi.name)
+                continue
             v = env.get(pname)
+            if isinstance(v, Z):
+                s.heap_write(V.get_rid(v.t), "mod_" + pname)
             if isinstance(v, RefV):
                 box = s.store[v.ref]
                 if isinstance(box, SeqBox):
@@ -994,10 +1096,11 @@ class Engine(Executor):
                 if not isinstance(d, Z):
                     raise Unsupported("%s of a local object" % kind, stmt)
                 rid = V.get_rid(d.t)
-                n = V.map_len(rid)
+                cid = s.sid(rid)           # the contents at loop entry (A-ITER: the body does not resize what it iterates)
+                n = V.map_len(cid)
                 what = kind[5:]
 
-                def el(k, s_, rid=rid, what=what):
+                def el(k, s_, rid=cid, what=what):
                     key = V.map_key_at(rid, k)
                     s_.assume(V.map_has(rid, key))
                     if what == "keys":
@@ -1014,20 +1117,21 @@ class Engine(Executor):
                 sv = V.get_s(t)
                 return z3.Length(sv), (lambda k, s_: Z(V.VStr(z3.SubString(sv, k, 1)), "str")), []
             rid = V.get_rid(t)
+            cid = s.sid(rid)               # the contents at loop entry (A-ITER)
             isdict = V.kind_of(rid) == V.K_DICT
-            n = z3.If(isdict, V.map_len(rid), V.seq_len(rid))
+            n = z3.If(isdict, V.map_len(cid), V.seq_len(cid))
             ok = z3.Or(V.is_Str(t), z3.And(V.is_Ref(t), z3.Or(
                 [V.kind_of(rid) == V.kind_id(k) for k in ("list", "dict", "set", "tuple", "CommentedSet", "deque")])))
 
             ehint = ("lib", "mergetuple") if it.hint == ("lib", "mergelist") else None
 
-            def el(k, s_, t=t, rid=rid, isdict=isdict, ehint=ehint):
+            def el(k, s_, t=t, rid=cid, isdict=isdict, ehint=ehint):
                 zv = Z(z3.If(V.is_Str(t), V.VStr(z3.SubString(V.get_s(t), k, 1)),
                              z3.If(isdict, V.map_key_at(rid, k), V.seq_item(rid, k))), ehint)
                 self.assume_elem_facts(t, zv, s_, stmt)
                 return zv
             n2 = z3.If(V.is_Str(t), z3.Length(V.get_s(t)), n)
-            return n2, el, [V.seq_len(rid) >= 0, V.map_len(rid) >= 0, ("need", ok, "TypeError", "iteration over an iterable value")]
+            return n2, el, [V.seq_len(cid) >= 0, V.map_len(cid) >= 0, ("need", ok, "TypeError", "iteration over an iterable value")]
         if isinstance(it, RefV):
             box = s.store[it.ref]
             if isinstance(box, SeqBox):
@@ -1087,7 +1191,7 @@ class Engine(Executor):
                 else:
                     # unannotated: candidate "keeps the definite type it has at loop entry" (Houdini: kept only if inductive)
                     for tn, tester in (("str", V.is_Str), ("int", V.is_Int), ("bool", V.is_Bool), ("float", V.is_Float)):
-                        if z3.is_true(st.simp(tester(v.t))):
+                        if v.hint == tn or z3.is_true(st.simp(tester(v.t))):
                             cands.append((n, tester))
                             hint = tn
                             break
@@ -1168,10 +1272,15 @@ class Engine(Executor):
 
     def loop_by_invariant_tail(self, stmt, it, st, key, spec, invs, body_ens, names, body_attrs, tag, count, elem):
         entry_env = dict(st.env)
+        # loop-entry ghosts: values named in invariants, evaluated once in the state before the first iteration
+        loop_ghost = {}
+        for gname, gexpr in (spec.get("ghost") or {}).items():
+            loop_ghost[gname] = self.eval_clause_value(gexpr, st, st.env, stmt)
 
         def with_iters(env, val):
             e2 = dict(env)
             e2["iters"] = Z(V.VInt(val), "int")
+            e2.update(loop_ghost)
             return e2
         # K4 (establish)
         for inv in invs:
@@ -1182,9 +1291,15 @@ class Engine(Executor):
         new_types = {n: {"str": V.is_Str, "int": V.is_Int, "bool": V.is_Bool} for n in new_names}
         k = z3.Int("loop_k!%s" % tag)
         has_yield = any(isinstance(x, ast.Yield) for b_ in stmt.body for x in ast.walk(b_))
+        # heap frame of the loop: a generator that may write the heap runs between iterations; a body that writes the
+        # heap is detected on its first symbolic run, and the loop is then redone with the heap havoced at its head
+        havoc_heap = isinstance(it, tuple) and it[0] == "gen" and "*" in (it[1][0].contract.modifies or [])
         while True:
             mark_obl, mark_pend = len(self.obligations), len(self.pending)
             body = st.fork()
+            if havoc_heap:
+                body.heap_havoc(tag)
+            heap_written = False
             cands = self.havoc(body, names, body_attrs, tag)
             cands = [(n, a_) for (n, a_) in cands if n not in dropped]
             for n in dropped:
@@ -1226,8 +1341,11 @@ class Engine(Executor):
                         continue
                     x.flags["iter_env"] = dict(x.env)
                     n_out0 = len(x.out)
+                    sig0 = x.heap_sig()
                     for (s2, oc) in self.exec_block(stmt.body, x):
                         ends_iteration = oc is None or oc[0] == "continue"
+                        if s2.heap_sig() != sig0:
+                            heap_written = True
                         if ends_iteration or oc[0] == "break":
                             # per-iteration post-conditions over what this iteration yielded / which calls it made
                             if body_ens:
@@ -1271,6 +1389,12 @@ class Engine(Executor):
                 del self.pending[mark_pend:]
                 self.notes.append("loop %r: annotation-derived type invariant dropped for %s" % (key, sorted(bad)))
                 continue
+            if heap_written and not havoc_heap:
+                havoc_heap = True
+                del self.obligations[mark_obl:]
+                del self.pending[mark_pend:]
+                self.notes.append("loop %r: the body writes the heap; container contents are havoced at the loop head" % key)
+                continue
             break
         # state after the loop: every element was visited (iters == count)
         later_reads = self.names_read_after(stmt)
@@ -1279,6 +1403,8 @@ class Engine(Executor):
             # a variable first bound inside the loop is read afterwards: the loop must run at least once
             self.prove(st, count > 0, "K1", stmt, "loop runs at least once (%s is first bound inside it and read later)" % ", ".join(need_nonempty), clause="UnboundLocalError")
         fin = st.fork()
+        if havoc_heap:
+            fin.heap_havoc(tag + "x")
         fin_cands = self.havoc(fin, names, body_attrs, tag + "x")
         for (n, mk) in fin_cands:
             if n not in dropped and isinstance(fin.env.get(n), Z):
